@@ -227,7 +227,7 @@ pub fn gen_scenario(seed: u64, large: u8) -> Scenario {
             continue;
         }
         // operations that meet a pool, a keyed map or an address get 3x the weight of the rest
-        let hot = op.large_ok || matches!(op.name, "stitch_triangulation" | "sweep_intersections" | "sweep_intersections_refs" | "interior_point" | "monotone_subdivision" | "par_iter_multipolygon" | "par_iter_multipoint_mls" | "unary_union_multi" | "intersection_poly_poly" | "constrained_triangulation_members" | "constrained_outer_triangulation");
+        let hot = op.large_ok || matches!(op.name, "stitch_triangulation" | "sweep_intersections" | "sweep_intersections_refs" | "interior_point" | "monotone_subdivision" | "par_iter_multipolygon" | "par_iter_multipoint_mls" | "unary_union_multi" | "intersection_poly_poly" | "constrained_triangulation_members" | "constrained_outer_triangulation" | "aggregates" | "geodesic_aggregates");
         if large == 0 && !hot && !rng.chance(1, 3) {
             continue;
         }
@@ -235,10 +235,14 @@ pub fn gen_scenario(seed: u64, large: u8) -> Scenario {
         if fams.is_empty() {
             continue;
         }
-        let fam = *rng.pick(&fams);
+        let mut fam = *rng.pick(&fams);
+        // folds over many members: half of the time on full-mantissa doubles
+        if large == 0 && matches!(op.name, "aggregates" | "geodesic_aggregates" | "par_iter_multipolygon" | "par_iter_multipoint_mls") && rng.chance(1, 2) {
+            fam = "mantissa";
+        }
         let mut spec = inputs::gen_spec(&mut rng, fam, large);
         // thousands of full-mantissa members are for the aggregate / par-iter operations only
-        if fam == "mantissa" && !matches!(op.name, "aggregates" | "par_iter_multipolygon" | "par_iter_multipoint_mls") {
+        if fam == "mantissa" && !matches!(op.name, "aggregates" | "geodesic_aggregates" | "par_iter_multipolygon" | "par_iter_multipoint_mls") {
             spec.size = spec.size.min(60);
         }
         let knobs = if large > 0 || !op.large_ok || rng.chance(1, 5) {
